@@ -293,7 +293,7 @@ func (g *Global) DeclareFun(name string, args []string, ret string) {
 	g.funcOrder = append(g.funcOrder, name)
 	if strings.HasPrefix(name, "card.") && len(args) == 1 {
 		// cardinality of a map domain: non-negative, positive when a key is present
-		g.AddAxiom(name+".nonneg", fmt.Sprintf("(assert (forall ((d!c %s)) (! (>= (%s d!c) 0) :pattern ((%s d!c)))))", args[0], name, name), name)
+		g.AddAxiom(name+".nonneg", fmt.Sprintf("(assert (forall ((d!c %s)) (! (and (>= (%s d!c) 0) (<= (%s d!c) 4294967296)) :pattern ((%s d!c)))))", args[0], name, name, name), name)
 		g.AddAxiom(name+".member", fmt.Sprintf("(assert (forall ((d!c %s) (k!c %s)) (! (=> (select d!c k!c) (> (%s d!c) 0)) :pattern ((select d!c k!c) (%s d!c)))))", args[0], arrayDomain(args[0]), name, name), name)
 	}
 }
